@@ -83,7 +83,10 @@ def snap(x, depth=0):
         import dataclasses
         return ("module", type(x).__name__, tuple((f.name, snap(getattr(x, f.name, None), depth + 1)) for f in dataclasses.fields(x)))
     if isinstance(x, (jax.Array, np.ndarray)):
-        a = np.asarray(x)
+        try:
+            a = np.asarray(x)
+        except Exception as e:          # e.g. a tracer of a finished jit trace that was stored into an argument
+            return ("unreadable-array", type(x).__name__, type(e).__name__)
         return ("array", id(x), a.shape, a.tobytes() if a.dtype != object else None)
     if callable(x) or x is None or isinstance(x, (int, float, str, bool, slice)) or x is Ellipsis:
         return ("atom", repr(x) if not callable(x) else "fn")
@@ -165,6 +168,9 @@ def _generators():
         "DataGeneratorODE": lambda: DataGeneratorODE(key, n, 0.0, 1.0, 3),
         "CubicMeshPDEStatio": lambda: CubicMeshPDEStatio(key=key, n=n, nb=8, omega_batch_size=3, omega_border_batch_size=2, dim=2,
                                                         min_pts=(0.0, 0.0), max_pts=(1.0, 2.0)),
+        # a border batch larger than the interior batch (index arithmetic near the int32 sentinel differs between python ints and int32)
+        "CubicMeshPDEStatio[border batch > interior batch + 1]": lambda: CubicMeshPDEStatio(
+            key=key, n=n, nb=24, omega_batch_size=2, omega_border_batch_size=5, dim=2, min_pts=(0.0, 0.0), max_pts=(1.0, 2.0)),
         "CubicMeshPDENonStatio": lambda: CubicMeshPDENonStatio(key=key, n=n, nb=8, nt=n, omega_batch_size=3, omega_border_batch_size=2,
                                                               temporal_batch_size=2, dim=2, min_pts=(0.0, 0.0), max_pts=(1.0, 2.0),
                                                               tmin=0.0, tmax=1.0),
@@ -177,6 +183,21 @@ def _generators():
 
 
 def native_generator_witness(seed):
+    """both with 64-bit and with JAX's default 32-bit types (index arithmetic near the int32 sentinel)"""
+    bad, n = _native_generator_witness(seed)
+    ctx = getattr(jax, "enable_x64", None)
+    if ctx is not None:
+        try:
+            with ctx(False):
+                b32, n32 = _native_generator_witness(seed)
+            bad += [m + " [JAX's default 32-bit types]" for m in b32]
+            n += n32
+        except Exception:
+            pass            # the witness search is best effort: its own failure is no statement about the code
+    return bad, n
+
+
+def _native_generator_witness(seed):
     bad, n = [], 0
     for name, mk in _generators().items():
         g = mk()
@@ -256,7 +277,7 @@ def generator_modes(name, calls):
         stores = {"DataGeneratorODE": ["times"], "CubicMeshPDEStatio": ["omega", "omega_border"],
                   "CubicMeshPDENonStatio": ["omega", "omega_border", "times"],
                   "DataGeneratorObservations": ["observed_pinn_in", "observed_values"],
-                  "DataGeneratorParameter": [], "DataGeneratorObservationsMultiPINNs": []}[name]
+                  "DataGeneratorParameter": [], "DataGeneratorObservationsMultiPINNs": []}[name.split("[")[0]]
         inputs = [Inp(s, tuple(getattr(g0, s).shape)) for s in stores] or [Inp("dummy", ())]
         def with_store(args):
             g = g0
@@ -274,7 +295,7 @@ def generator_modes(name, calls):
         def spec(*syms):
             return JI.run_symbolic(eager, tuple(syms))[0]
         return dict(fn=jitted, spec=spec, inputs=inputs)
-    return EqObligation(f"C20/modes/{name}.get_batch[jit==eager,after_{calls}_calls]", build, [D + name + ".get_batch"])
+    return EqObligation(f"C20/modes/{name}.get_batch[jit==eager,after_{calls}_calls]", build, [D + name.split("[")[0] + ".get_batch"])
 
 
 def obligations(tier):
@@ -288,4 +309,13 @@ def obligations(tier):
         for calls in ((0, 2) if tier == "quick" else (0, 1, 2, 3)):
             obs.append(generator_modes(name, calls))
     obs.append(native_ob())
+    # eager (python int) and jitted (int32) index arithmetic agree only inside the 32-bit range: the C09 range clause of
+    # every batch function and the constructors' sentinels (C08 / C09 obligations, needed here and re-checked here)
+    from contracts import c08, c09
+    for which, rars in c09.CONSUMERS:
+        for rar in rars:
+            o = c09.consumer_ob(which, rar, "no_int32_overflow")
+            o.name = o.name.replace("C09/", "C20/int32_range/")
+            obs.append(o)
+    obs += [c08.ctor_sentinels(cls, dim, prefix="C20/int32_range") for cls in ("CubicMeshPDEStatio", "CubicMeshPDENonStatio") for dim in (1, 2)]
     return obs
